@@ -454,6 +454,40 @@ def r7_inherited_argument_precedence(chk: Check):
                 "otherwise the default / ignored flag used by the identifier is not the one of the value the user sees", loc)
 
 
+def r8_falsy_defaults_are_defaults(chk: Check):
+    """`field(default=0)`, `False`, `""`, `[]` are declared defaults like any other: Argument.__init__ must decide on `is None`, never on the truth
+    value of the default (a dropped default turns `X()` into an unset optional while `X(p=0)` is hashed)"""
+    tree = chk.tree
+    f = tree.func("core.arguments", "Argument.__init__")
+    g = CFG(f.node)
+    loc = chk.loc(f.module, f.node)
+    stores = [n for n in g.live if n.kind == "stmt" and isinstance(n.ast, ast.Assign) and src(n.ast.targets[0]) == "self.default" and not (isinstance(n.ast.value, ast.Constant) and n.ast.value.value is None)]
+    chk.min_instances(len(stores), 2, "stores of a declared default in Argument.__init__")
+    for n in g.live:
+        if n.kind != "test":
+            continue
+        t = src(n.ast)
+        mentions = any(isinstance(x, ast.Name) and x.id == "default" for x in ast.walk(n.ast)) or "default.default" in t
+        if not mentions:
+            continue
+        shape_ok = (isinstance(n.ast, ast.Compare) and len(n.ast.ops) == 1 and isinstance(n.ast.ops[0], (ast.Is, ast.IsNot)) and isinstance(n.ast.comparators[0], ast.Constant)
+                    and n.ast.comparators[0].value is None) or (isinstance(n.ast, ast.Call) and dotted(n.ast.func) == "isinstance")
+        chk.require(shape_ok, chk.fkey(f, f"default tested for presence only: {t[:40]}"),
+                    f"Argument.__init__ decides on `{t}`: a falsy default (0, False, '', []) would be dropped and the parameter become an unset optional", chk.loc(f.module, n.ast))
+    # every path on which a field carries a default stores it
+    for n in stores:
+        gs = [(src(t.ast), pol) for t, pol in g.guards(n) if t.kind == "test"]
+        bad = [x for x in gs if not (x[0].endswith(" is None") or x[0].startswith("isinstance("))]
+        chk.require(not bad, chk.fkey(f, "default stored whenever present"), f"`{src(n.ast)}` is executed only under {bad}", loc)
+
+
+def r9_tagged_value_is_the_value(chk: Check):
+    """A tag is an annotation of a value: what is stored (and hashed) for `tag(v)` is what is stored for `v` -- the validated, coerced value (= C15.R2)"""
+    from .c15 import r2_set_table
+
+    r2_set_table(chk)
+
+
 RULES = [
     ("R1", "frame condition: no function computing identifiers reads tags, dependencies, job, launcher, workspace, run mode or documentation", r1_frame),
     ("R2", "argument-loop decision table equals the documented rule for all consistent assignments of its atoms; the decision depends on no other condition", r2_table),
@@ -461,5 +495,7 @@ RULES = [
     ("R4", "declaration tables: Path ignored by type, Option/Meta/DataPath ignored, Param not, generators registered", r4_declarations),
     ("R7", "inherited parameters: the declaration of the first base wins (ChainMap order = MRO), so the default / ignored flags used by the identifier are those of the visible attribute", r7_inherited_argument_precedence),
     ("R6", "configurations reloaded from disk are default-filled by the ordinary constructor before the stored fields are restored (a defaulted parameter added later leaves old identifiers unchanged)", r6_reload_default_filled),
+    ("R8", "a declared default is kept whatever its truth value: Argument.__init__ tests defaults for presence (`is None`) only", r8_falsy_defaults_are_defaults),
+    ("R9", "a tagged value is stored like the plain value: the stored value is the validated one on every path of set() (= C15.R2)", r9_tagged_value_is_the_value),
     ("R5", "the full identifier adds only pre-task and init-task raw identifiers", r5_full_identifier),
 ]
